@@ -34,7 +34,10 @@ impl State {
     #[verifier::external_body] pub fn closure_struct_for_ty(&self, ty: &Ty) -> (r: Option<String>) ensures r == self.closure_of(*ty) { unimplemented!() }
     pub uninterp spec fn apply_of(&self, struct_name: Seq<char>) -> Option<Seq<char>>;                  // State::apply_fn_for_struct
     #[verifier::external_body] pub fn apply_fn_for_struct(&self, struct_name: &str) -> (r: Option<&str>) ensures r matches Some(a) ==> self.apply_of(struct_name@) == Some(a@), r is None ==> self.apply_of(struct_name@) is None { unimplemented!() }
-    #[verifier::external_body] pub fn ty_contains_closure(&self, ty: &Ty) -> (r: bool) { unimplemented!() }
+    pub uninterp spec fn contains_closure(&self, ty: Ty) -> bool;                                       // State::ty_contains_closure
+    #[verifier::external_body] pub fn ty_contains_closure(&self, ty: &Ty) -> (r: bool) ensures r == self.contains_closure(*ty) { unimplemented!() }
+    pub uninterp spec fn func_ty(&self, name: Seq<char>) -> Option<Ty>;                                   // state.liftenv.get_func(name)
+    #[verifier::external_body] pub fn get_func_ty(&self, name: &str) -> (r: Option<Ty>) ensures r == self.func_ty(name@) { unimplemented!() }
 }
 // the recursive call (an arbitrary lifted expression; the state may change, but not which types are closure environments)
 #[verifier::external_body]
@@ -68,8 +71,16 @@ pub open spec fn entry_closure(state: &State, e: ScopeEntry) -> Option<String> {
 }
 // a call whose callee is a variable holding closure environment s with apply function f becomes `f(x: s, args..)`:
 // the closure itself first, the original arguments after it, in order
-pub open spec fn closure_call(r: LiftExpr, x: Seq<char>, e: ScopeEntry, s: String, f: Seq<char>, args: Seq<LiftExpr>, ty: Ty) -> bool {
-    r matches LiftExpr::ECall { func, args: ca, ty: rt } && rt == ty
+// the type of a call of apply function f: f's own result type when that holds a closure environment (a closure that yields a closure), else
+// the type the call had before lifting
+pub open spec fn apply_call_ty(state: &State, f: Seq<char>, ty: Ty) -> Ty {
+    match state.func_ty(f) {
+        Some(Ty::TFunc { ret_ty, .. }) => if state.contains_closure(*ret_ty) { *ret_ty } else { ty },
+        _ => ty,
+    }
+}
+pub open spec fn closure_call(state: &State, r: LiftExpr, x: Seq<char>, e: ScopeEntry, s: String, f: Seq<char>, args: Seq<LiftExpr>, ty: Ty) -> bool {
+    r matches LiftExpr::ECall { func, args: ca, ty: rt } && rt == apply_call_ty(state, f, ty)
     && (*func matches LiftExpr::EVar { name: fnm, ty: fty } && fnm@ == f && fty == e.ty)
     && ca@.len() == args.len() + 1
     && (ca@[0] matches LiftExpr::EVar { name: cn, ty: cty } && cn@ == x && cty == Ty::TStruct { name: s })
@@ -84,16 +95,16 @@ pub open spec fn call_ok(r: LiftExpr, fe: LiftExpr, la: Seq<LiftExpr>, scope: &S
         && state.apply_of(entry_closure(state, scope.entry_of(fe->EVar_name@)->0)->0@) is Some {
         let e = scope.entry_of(fe->EVar_name@)->0;
         let s = entry_closure(state, e)->0;
-        closure_call(r, fe->EVar_name@, e, s, state.apply_of(s@)->0, la, ty)
+        closure_call(state, r, fe->EVar_name@, e, s, state.apply_of(s@)->0, la, ty)
     } else if state.closure_of(lift_ty(fe)) is Some && state.apply_of(state.closure_of(lift_ty(fe))->0@) is Some {
         // the callee is no such variable, but its VALUE is a closure environment (a call result, a projection, ..): same treatment
-        value_closure_call(r, fe, state.apply_of(state.closure_of(lift_ty(fe))->0@)->0, la, ty)
+        value_closure_call(state, r, fe, state.apply_of(state.closure_of(lift_ty(fe))->0@)->0, la, ty)
     } else {
         r matches LiftExpr::ECall { func, args, ty: _ } && *func == fe && args@ == la
     }
 }
-pub open spec fn value_closure_call(r: LiftExpr, fe: LiftExpr, f: Seq<char>, args: Seq<LiftExpr>, ty: Ty) -> bool {
-    r matches LiftExpr::ECall { func, args: ca, ty: rt } && rt == ty
+pub open spec fn value_closure_call(state: &State, r: LiftExpr, fe: LiftExpr, f: Seq<char>, args: Seq<LiftExpr>, ty: Ty) -> bool {
+    r matches LiftExpr::ECall { func, args: ca, ty: rt } && rt == apply_call_ty(state, f, ty)
     && (*func matches LiftExpr::EVar { name: fnm, .. } && fnm@ == f)
     && ca@.len() == args.len() + 1 && ca@[0] == fe
     && ca@.subrange(1, ca@.len() as int) == args
@@ -113,4 +124,6 @@ pub fn transform_let_body(state: &mut State, scope: &mut Scope, expr: MonoExpr, 
 // what `*value` is: a closure literal (lifted with the binding's name) or anything else
 pub enum LetValue { Closure { params: Vec<ClosureParam>, body: Box<MonoExpr>, ty: Ty }, Other(MonoExpr) }
 #[verifier::external_body] pub fn let_value_of(value: Box<MonoExpr>) -> (r: LetValue) { unimplemented!() }
+#[verifier::external_body] pub fn unbox_ty(b: Box<Ty>) -> (r: Ty) ensures r == *b { unimplemented!() }          // `*ret_ty` on an owned Box
+#[verifier::external_body] pub fn ty_ne(a: &Ty, b: &Ty) -> (r: bool) ensures r == (*a != *b) { unimplemented!() }           // derived PartialEq
 
